@@ -320,9 +320,16 @@ func (r *Report) checkKnown(e *Enc, ob *Obligation, kf *knownFinding) (bool, str
 		e.errs = e.errs[:nerr]
 		return false, "class predicate does not evaluate: " + msg
 	}
-	out := &Obligation{Name: ob.Name + ".outside-known-class", Upto: ob.Upto, Reach: ob.Reach, Goal: or(ob.Goal, cls), Expect: "unsat", Extra: extra}
-	res := solve(r.Work, out.Name, e.query(out, false), r.Opts.timeout, r.Opts.seed, "")
+	out := &Obligation{Name: ob.Name + ".outside-known-class", Kind: ob.Kind, Func: ob.Func, Upto: ob.Upto, Reach: ob.Reach, Goal: or(ob.Goal, cls), Expect: "unsat", Extra: extra}
+	tmp := oblResult{O: out, E: e}
+	decide(&tmp, r.Opts, r.Work)
+	res := out.Res
 	if res.Status != "unsat" {
+		// report the failure outside the class: later model extraction and
+		// replay work on the obligation with the class excluded
+		ob.Goal = out.Goal
+		ob.Extra = out.Extra
+		ob.Res = res
 		return false, "a failure outside the recorded class exists (" + res.Status + ")"
 	}
 	in := &Obligation{Name: ob.Name + ".inside-known-class", Upto: ob.Upto, Reach: ob.Reach, Goal: or(ob.Goal, not(cls)), Expect: "sat", Extra: extra}
